@@ -214,6 +214,7 @@ fn key_impl(imp: &syn::ItemImpl) -> KeyFacts {
                             (syn::BinOp::Le(_), true) => (".lt", r, l),
                             (syn::BinOp::Gt(_), true) => (".le", l, r),
                             (syn::BinOp::Ge(_), true) => (".lt", l, r),
+                            (syn::BinOp::Ne(_), false) | (syn::BinOp::Eq(_), true) => if r < l { (".ne", r, l) } else { (".ne", l, r) },
                             _ => return None,
                         })
                     };
